@@ -1,6 +1,6 @@
 (* SubsampleProofs.v - theorems about the Subsample model (C11). *)
 From Coq Require Import Reals Lra Lia List Arith Bool ZArith Sorted Permutation.
-From Evo Require Import Num Linalg LinalgR Filters FiltersProofs Subsample.
+From Evo Require Import Num Linalg LinalgR Filters FiltersProofs Subsample SubsampleFinite.
 Import ListNotations.
 Local Open Scope R_scope.
 
@@ -257,3 +257,493 @@ Proof.
     cbn [skipn nth]. apply IH. cbn in Lk. lia. }
   rewrite E. cbn [sumR]. rewrite Rplus_0_r. rewrite (seg_norms_nth d0) by exact Hk. reflexivity.
 Qed.
+
+Lemma speeds_spec (d0 : V3 R) : forall (ps : list (V3 R)) (ts : list R), length ps = length ts ->
+  match speeds ps ts with
+  | Some sp => length sp = (length ps - 1)%nat /\
+               forall k, (S k < length ps)%nat -> 0 < nth (S k) ts 0 - nth k ts 0 /\
+                 nth k sp 0 = norm (vsub (nth (S k) ps d0) (nth k ps d0)) / (nth (S k) ts 0 - nth k ts 0)
+  | None => exists k, (S k < length ps)%nat /\ nth (S k) ts 0 - nth k ts 0 <= 0
+  end.
+Proof.
+  induction ps as [|p1 pr IH]; intros ts L; [cbn; split; [reflexivity|intros k H; cbn in H; lia]|].
+  destruct ts as [|t1 tr]; [discriminate|]. destruct pr as [|p2 pr'].
+  - destruct tr; [|discriminate]. cbn. split; [reflexivity|intros k H; lia].
+  - destruct tr as [|t2 tr']; [discriminate|].
+    change (speeds (p1 :: p2 :: pr') (t1 :: t2 :: tr')) with
+      (if nleb (nsub t2 t1) n0 then None
+       else match speeds (p2 :: pr') (t2 :: tr') with
+            | None => None
+            | Some r => Some ((ndiv (norm (vsub p2 p1)) (nsub t2 t1)) :: r)
+            end).
+    rnum. specialize (IH (t2 :: tr') ltac:(cbn in *; lia)).
+    destruct (Rleb (t2 - t1) 0) eqn:Le.
+    + apply Rleb_true in Le. exists 0%nat. cbn. split; [lia|exact Le].
+    + apply Rleb_false in Le. destruct (speeds (p2 :: pr') (t2 :: tr')) as [r|].
+      * destruct IH as [IL IN]. split; [cbn [length] in *; rewrite IL; lia|].
+        intros k Hk. destruct k as [|k]; [cbn; split; [exact Le|reflexivity]|].
+        cbn [nth]. apply (IN k). cbn [length] in *. lia.
+      * destruct IH as (k & Hk & Hle). exists (S k). cbn [length nth] in *. split; [lia|exact Hle].
+Qed.
+
+Theorem speed_flags_spec (d0 : V3 R) (vmax : R) (ps : list (V3 R)) (ts : list R) : length ps = length ts ->
+  match speed_flags vmax ps ts with
+  | Some f => length f = (length ps - 1)%nat /\
+              forall k, (S k < length ps)%nat -> 0 < nth (S k) ts 0 - nth k ts 0 /\
+                (nth k f false = true <->
+                 vmax < norm (vsub (nth (S k) ps d0) (nth k ps d0)) / (nth (S k) ts 0 - nth k ts 0))
+  | None => exists k, (S k < length ps)%nat /\ nth (S k) ts 0 - nth k ts 0 <= 0
+  end.
+Proof.
+  intros L. unfold speed_flags. pose proof (speeds_spec d0 ps ts L) as H.
+  destruct (speeds ps ts) as [sp|]; [|exact H]. destruct H as [HL HN]. split; [now rewrite map_length|].
+  intros k Hk. destruct (HN k Hk) as [H1 H2]. split; [exact H1|].
+  rewrite (nth_map_lt _ _ 0) by lia. rewrite H2. rnum. apply Rltb_true.
+Qed.
+
+(* ====================================================================================== *)
+(* motion filter                                                                          *)
+(* ====================================================================================== *)
+Section Motion.
+Variables (dthr athr : R) (ang : nat -> nat -> R) (D : list R).
+
+(* the decision for pose j when p is the last kept pose *)
+Definition keep (p j : nat) : Prop := dthr <= nth j D 0 - nth p D 0 \/ athr <= ang p j.
+(* last kept pose before j (dflt when none of R is below j) *)
+Definition last_kept (K : list nat) (dflt j : nat) : nat := last (filter (fun k => Nat.ltb k j) K) dflt.
+
+Lemma last_cons_default (l : list nat) : forall x d, last (x :: l) d = last l x.
+Proof.
+  induction l as [|y r IH]; intros x d; [reflexivity|].
+  change (last (x :: y :: r) d) with (last (y :: r) d). rewrite (IH y d), (IH y x). reflexivity.
+Qed.
+
+Lemma filter_none_above (K : list nat) j : Forall (fun k => (j <= k)%nat) K -> filter (fun k => Nat.ltb k j) K = [].
+Proof.
+  induction 1 as [|x r Hx F IH]; [reflexivity|]. cbn [filter]. destruct (Nat.ltb_spec x j); [lia|exact IH].
+Qed.
+
+Lemma motion_aux_spec : forall ds i prev, skipn i D = ds -> (prev < i)%nat ->
+  let K := motion_aux dthr athr ang prev (nth prev D 0) i ds in
+  StronglySorted lt K /\ Forall (fun j => (i <= j < length D)%nat) K /\
+  forall j, (i <= j < length D)%nat -> (In j K <-> keep (last_kept K prev j) j).
+Proof.
+  induction ds as [|d r IH]; intros i prev Hs Hp.
+  - cbn. split; [constructor|]. split; [constructor|]. intros j Hj. exfalso.
+    assert (H : length (skipn i D) = 0%nat) by now rewrite Hs. rewrite skipn_length in H. lia.
+  - destruct (skipn_cons_nth 0 D i d r Hs) as (Hn & Hr & Hi & _).
+    cbn [motion_aux]. rnum.
+    assert (Step : forall K', K' = motion_aux dthr athr ang i d (S i) r -> keep prev i ->
+      StronglySorted lt (i :: K') /\ Forall (fun j => (i <= j < length D)%nat) (i :: K') /\
+      forall j, (i <= j < length D)%nat -> (In j (i :: K') <-> keep (last_kept (i :: K') prev j) j)).
+    { intros K' EK Kp. specialize (IH (S i) i Hr ltac:(lia)). rewrite Hn in IH. cbn zeta in IH. rewrite <- EK in IH.
+      destruct IH as (St & Fo & Iff).
+      split; [constructor; [exact St|eapply Forall_impl; [|exact Fo]; cbn; intros; lia]|].
+      split; [constructor; [lia|eapply Forall_impl; [|exact Fo]; cbn; intros; lia]|].
+      intros j Hj. destruct (Nat.eq_dec j i) as [->|Ne].
+      - split; [intros _|intros _; now left]. unfold last_kept. cbn [filter].
+        rewrite Nat.ltb_irrefl. rewrite filter_none_above; [exact Kp|].
+        eapply Forall_impl; [|exact Fo]. cbn. intros; lia.
+      - assert (E : last_kept (i :: K') prev j = last_kept K' i j).
+        { unfold last_kept. cbn [filter]. destruct (Nat.ltb_spec i j); [|lia]. apply last_cons_default. }
+        rewrite E. rewrite <- (Iff j ltac:(lia)). cbn [In]. split; [intros [->|H]; [congruence|exact H]|now right]. }
+    assert (Skip : ~ keep prev i -> let K' := motion_aux dthr athr ang prev (nth prev D 0) (S i) r in
+      StronglySorted lt K' /\ Forall (fun j => (i <= j < length D)%nat) K' /\
+      forall j, (i <= j < length D)%nat -> (In j K' <-> keep (last_kept K' prev j) j)).
+    { intros Nk. specialize (IH (S i) prev Hr ltac:(lia)). cbn zeta in *. destruct IH as (St & Fo & Iff).
+      split; [exact St|]. split; [eapply Forall_impl; [|exact Fo]; cbn; intros; lia|].
+      intros j Hj. destruct (Nat.eq_dec j i) as [->|Ne]; [|apply Iff; lia].
+      split.
+      - intros I. rewrite Forall_forall in Fo. specialize (Fo i I). lia.
+      - intros Kp. exfalso. apply Nk. unfold last_kept in Kp. rewrite filter_none_above in Kp; [exact Kp|].
+        eapply Forall_impl; [|exact Fo]. cbn. intros; lia. }
+    destruct (Rleb dthr (d - nth prev D 0)) eqn:L1.
+    + apply Rleb_true in L1. apply (Step _ eq_refl). left. rewrite Hn. exact L1.
+    + apply Rleb_false in L1. destruct (Rleb athr (ang prev i)) eqn:L2.
+      * apply Rleb_true in L2. apply (Step _ eq_refl). now right.
+      * apply Rleb_false in L2. apply Skip. intros [H|H]; [rewrite Hn in H|]; lra.
+Qed.
+End Motion.
+
+(* The motion filter refuses fewer than two poses or a negative threshold. Otherwise pose 0 is kept and a
+   later pose j is kept IF AND ONLY IF, with p the last pose kept before j, the path travelled from p to j
+   (accumulated distances) reached the distance threshold or the direct rotation angle between p and j
+   reached the angle threshold (converted to radians). The kept indices are strictly increasing. *)
+Theorem motion_ids_spec (ps : list (V3 R)) (ang : nat -> nat -> R) (dthr athr : R) (degrees : bool) :
+  let a := if degrees then athr * (PI / 180) else athr in
+  match motion_ids PI ps ang dthr athr degrees with
+  | None => (length ps < 2)%nat \/ dthr < 0 \/ athr < 0
+  | Some K =>
+      (2 <= length ps)%nat /\ 0 <= dthr /\ 0 <= athr /\
+      hd 1%nat K = 0%nat /\ StronglySorted lt K /\ Forall (fun j => (j < length ps)%nat) K /\
+      forall j, (1 <= j < length ps)%nat ->
+        (In j K <-> keep dthr a ang (acc_dists ps) (last_kept K 0 j) j)
+  end.
+Proof.
+  cbn zeta. unfold motion_ids. destruct (Nat.ltb_spec (length ps) 2) as [L|L]; [now left|].
+  rnum. destruct (Rltb dthr 0) eqn:A; [apply Rltb_true in A; right; now left|]. apply Rltb_false in A.
+  destruct (Rltb athr 0) eqn:B; [apply Rltb_true in B; right; now right|]. apply Rltb_false in B.
+  assert (N : ps <> []) by (destruct ps; [cbn in L; lia|discriminate]).
+  destruct (acc_dists_spec ps N) as [AL AN].
+  set (a := if degrees then deg2rad PI athr else athr).
+  assert (Ea : a = if degrees then athr * (PI / 180) else athr) by (unfold a, deg2rad; rnum; reflexivity).
+  rewrite <- Ea.
+  pose proof (motion_aux_spec dthr a ang (acc_dists ps) (tl (acc_dists ps)) 1 0) as H.
+  assert (Hs : skipn 1 (acc_dists ps) = tl (acc_dists ps)) by (destruct (acc_dists ps); reflexivity).
+  specialize (H Hs ltac:(lia)). cbn zeta in H.
+  assert (H0 : nth 0 (acc_dists ps) 0 = 0) by reflexivity. rewrite H0 in H. rewrite AL in H.
+  set (K := motion_aux dthr a ang 0 0 1 (tl (acc_dists ps))) in *. destruct H as (St & Fo & Iff).
+  repeat split; try assumption.
+  - constructor; [exact St|]. eapply Forall_impl; [|exact Fo]. cbn. intros; lia.
+  - constructor; [lia|]. eapply Forall_impl; [|exact Fo]. cbn. intros; lia.
+  - intros I. destruct I as [E|I]; [lia|]. 
+    assert (E : last_kept (0%nat :: K) 0 j = last_kept K 0 j).
+    { unfold last_kept. cbn [filter]. destruct (Nat.ltb_spec 0 j); [|lia]. apply last_cons_default. }
+    rewrite E. apply Iff; [lia|exact I].
+  - intros Kp. right.
+    assert (E : last_kept (0%nat :: K) 0 j = last_kept K 0 j).
+    { unfold last_kept. cbn [filter]. destruct (Nat.ltb_spec 0 j); [|lia]. apply last_cons_default. }
+    rewrite E in Kp. apply Iff; [lia|exact Kp].
+Qed.
+
+(* ====================================================================================== *)
+(* merge                                                                                  *)
+(* ====================================================================================== *)
+Lemma select_ids_seq {A} (d : A) (l : list A) : select_ids d l (seq 0 (length l)) = l.
+Proof.
+  unfold select_ids. 
+  assert (G : forall pre, map (fun i => nth i (pre ++ l) d) (seq (length pre) (length l)) = l).
+  { induction l as [|x r IH]; intros pre; [reflexivity|]. cbn [length seq map]. f_equal.
+    - rewrite app_nth2 by lia. now rewrite Nat.sub_diag.
+    - specialize (IH (pre ++ [x])). rewrite app_length in IH. cbn [length] in IH.
+      rewrite Nat.add_1_r in IH. rewrite <- app_assoc in IH. exact IH. }
+  apply (G []).
+Qed.
+
+(* the merged trajectory: every array indexed by the same order => the merged (stamp, position,
+   orientation) triples are a permutation of the input triples; each pose keeps its own stamp and
+   orientation; the stamps are in the order the argsort oracle guarantees *)
+Theorem merge3_spec {A B} (da : A) (db : B) (order : list nat) (stamps : list R) (xyz : list A) (quat : list B) :
+  length xyz = length stamps -> length quat = length stamps -> Permutation order (seq 0 (length stamps)) ->
+  let '(s', x', q') := merge3 0 da db order stamps xyz quat in
+  combine s' (combine x' q') = select_ids (0, (da, db)) (combine stamps (combine xyz quat)) order /\
+  Permutation (combine s' (combine x' q')) (combine stamps (combine xyz quat)) /\
+  length s' = length stamps /\ length x' = length stamps /\ length q' = length stamps.
+Proof.
+  intros Lx Lq P. unfold merge3.
+  assert (Lc : length (combine xyz quat) = length stamps) by (rewrite combine_length; lia).
+  split; [|split].
+  - rewrite <- select_ids_combine by lia. rewrite <- select_ids_combine by lia. reflexivity.
+  - rewrite <- select_ids_combine by lia. rewrite <- select_ids_combine by lia.
+    set (tr := combine stamps (combine xyz quat)).
+    assert (Lt : length tr = length stamps) by (unfold tr; rewrite combine_length; lia).
+    rewrite <- (select_ids_seq (0, (da, db)) tr) at 2. rewrite Lt. unfold select_ids. apply Permutation_map. exact P.
+  - rewrite !select_ids_length. pose proof (Permutation_length P) as Q. rewrite seq_length in Q. tauto.
+Qed.
+
+(* the checker for an argsort answer is sound *)
+Lemma sorted_b_sound (l : list R) : sorted_b l = true -> StronglySorted Rle l.
+Proof.
+  induction l as [|a r IH]; [constructor|]. destruct r as [|b r']; [repeat constructor|].
+  change (sorted_b (a :: b :: r')) with (nleb a b && sorted_b (b :: r')). rnum. intros H.
+  apply andb_prop in H. destruct H as [H1 H2]. apply Rleb_true in H1. specialize (IH H2).
+  constructor; [exact IH|]. inversion IH as [|? ? S F]; subst. constructor; [exact H1|].
+  eapply Forall_impl; [|exact F]. cbn. intros; lra.
+Qed.
+Theorem is_argsort_b_sound (keys : list R) (order inv : list nat) : is_argsort_b keys order inv = true ->
+  Permutation order (seq 0 (length keys)) /\ StronglySorted Rle (select_ids 0 keys order).
+Proof.
+  unfold is_argsort_b. intros H. apply andb_prop in H. destruct H as [H H3]. apply andb_prop in H. destruct H as [H1 H2].
+  apply Nat.eqb_eq in H1. split; [|apply sorted_b_sound; exact H3].
+  apply Permutation_sym. apply NoDup_Permutation_bis; [apply seq_NoDup|rewrite seq_length; lia|].
+  intros i Hi. rewrite forallb_forall in H2. specialize (H2 i Hi). apply Nat.eqb_eq in H2.
+  apply in_seq in Hi. destruct (Nat.lt_ge_cases (nth i inv 0%nat) (length order)) as [L|L].
+  - rewrite <- H2. apply nth_In. exact L.
+  - rewrite nth_overflow in H2 by exact L. lia.
+Qed.
+
+(* the oracle's specification is satisfiable: a stable insertion argsort meets it *)
+Lemma ins_idx_perm (keys : list R) i l : Permutation (ins_idx keys i l) (i :: l).
+Proof.
+  induction l as [|j r IH]; cbn [ins_idx]; [reflexivity|]. rnum. destruct (Rltb _ _); [reflexivity|].
+  rewrite IH. apply perm_swap.
+Qed.
+Lemma ins_idx_sorted (keys : list R) i l :
+  StronglySorted (fun a b => nth a keys 0 <= nth b keys 0) l ->
+  StronglySorted (fun a b => nth a keys 0 <= nth b keys 0) (ins_idx keys i l).
+Proof.
+  induction 1 as [|j r S IH F]; cbn [ins_idx]; [repeat constructor|]. rnum.
+  destruct (Rltb (nth i keys 0) (nth j keys 0)) eqn:L.
+  - apply Rltb_true in L. constructor; [constructor; assumption|]. constructor; [lra|].
+    eapply Forall_impl; [|exact F]. cbn. intros; lra.
+  - apply Rltb_false in L. constructor; [exact IH|].
+    eapply Permutation_Forall; [symmetry; apply ins_idx_perm|]. constructor; [exact L|exact F].
+Qed.
+Theorem argsort_model_spec (keys : list R) :
+  Permutation (argsort_model keys) (seq 0 (length keys)) /\
+  StronglySorted Rle (select_ids 0 keys (argsort_model keys)).
+Proof.
+  unfold argsort_model.
+  assert (G : forall l acc, StronglySorted (fun a b => nth a keys 0 <= nth b keys 0) acc ->
+     Permutation (fold_left (fun acc i => ins_idx keys i acc) l acc) (rev l ++ acc) /\
+     StronglySorted (fun a b => nth a keys 0 <= nth b keys 0) (fold_left (fun acc i => ins_idx keys i acc) l acc)).
+  { induction l as [|i r IH]; intros acc S; [split; [reflexivity|exact S]|]. cbn [fold_left rev].
+    destruct (IH (ins_idx keys i acc) (ins_idx_sorted keys i acc S)) as [P S']. split; [|exact S'].
+    rewrite P. rewrite <- app_assoc. cbn. apply Permutation_app_head. apply ins_idx_perm. }
+  destruct (G (seq 0 (length keys)) [] ltac:(constructor)) as [P S]. rewrite app_nil_r in P.
+  split; [rewrite P; symmetry; apply Permutation_rev|].
+  unfold select_ids. clear P. induction S as [|a r S IH F]; cbn; [constructor|].
+  constructor; [exact IH|]. rewrite Forall_forall in *. intros x Hx. apply in_map_iff in Hx.
+  destruct Hx as (b & <- & Hb). apply F; exact Hb.
+Qed.
+
+(* ====================================================================================== *)
+(* down-sampling                                                                          *)
+(* ====================================================================================== *)
+Local Open Scope Z_scope.
+
+Lemma ziota_length len : forall s, length (ziota len s) = len.
+Proof. induction len as [|l IH]; intros s; cbn; [reflexivity|now rewrite IH]. Qed.
+Lemma ziota_nth len : forall s k, (k < len)%nat -> nth k (ziota len s) 0 = s + Z.of_nat k.
+Proof.
+  induction len as [|l IH]; intros s k H; [lia|]. destruct k as [|k]; cbn [ziota nth]; [lia|].
+  rewrite IH by lia. lia.
+Qed.
+Lemma ziota_In len : forall s x, In x (ziota len s) <-> s <= x < s + Z.of_nat len.
+Proof.
+  induction len as [|l IH]; intros s x; cbn [ziota In]; [lia|]. rewrite IH. lia.
+Qed.
+
+(* "evenly spaced by index" *)
+Definition evenly_spaced (n N : Z) (ids : list Z) : Prop :=
+  Z.of_nat (length ids) = N /\ hd 1 ids = 0 /\ (2 <= N -> last ids 0 = n - 1) /\
+  forall k, (S k < length ids)%nat ->
+    1 <= nth (S k) ids 0 - nth k ids 0 /\
+    (nth (S k) ids 0 - nth k ids 0 = (n - 1) / (N - 1) \/
+     (nth (S k) ids 0 - nth k ids 0 = (n - 1) / (N - 1) + 1 /\ (n - 1) mod (N - 1) <> 0)).
+
+Lemma forallb_zgaps (p : Z -> bool) : forall l,
+  forallb p (zgaps l) = true <-> forall k, (S k < length l)%nat -> p (nth (S k) l 0 - nth k l 0) = true.
+Proof.
+  induction l as [|a r IH]; [cbn; split; [intros _ k H; lia|reflexivity]|].
+  destruct r as [|b r']; [cbn; split; [intros _ k H; lia|reflexivity]|].
+  change (zgaps (a :: b :: r')) with ((b - a) :: zgaps (b :: r')). cbn [forallb]. rewrite andb_true_iff, IH. split.
+  - intros [H1 H2] k Hk. destruct k as [|k]; [exact H1|]. apply (H2 k). cbn [length] in *. lia.
+  - intros H. split; [apply (H 0%nat); cbn; lia|]. intros k Hk. apply (H (S k)). cbn [length] in *. lia.
+Qed.
+
+(* the executable checker decides exactly that statement *)
+Theorem evenly_spaced_zb_iff n N ids : evenly_spaced_zb n N ids = true <-> evenly_spaced n N ids.
+Proof.
+  unfold evenly_spaced_zb, evenly_spaced. rewrite !andb_true_iff, forallb_zgaps, orb_true_iff.
+  rewrite !Z.eqb_eq, Z.ltb_lt. split.
+  - intros (((H1 & H2) & H3) & H4). split; [exact H1|]. split; [exact H2|]. split; [intros; destruct H3; [lia|assumption]|].
+    intros k Hk. specialize (H4 k Hk). apply andb_true_iff in H4. destruct H4 as [G1 G2]. apply Z.leb_le in G1.
+    split; [exact G1|]. apply orb_true_iff in G2. destruct G2 as [G2|G2]; [left; now apply Z.eqb_eq|right].
+    apply andb_true_iff in G2. destruct G2 as [G2 G3]. apply Z.eqb_eq in G2. split; [exact G2|].
+    apply negb_true_iff in G3. now apply Z.eqb_neq.
+  - intros (H1 & H2 & H3 & H4). split; [split; [split; assumption|]|].
+    + destruct (Z.lt_ge_cases N 2); [now left|right; apply H3; lia].
+    + intros k Hk. destruct (H4 k Hk) as [G1 G2]. apply andb_true_iff. split; [now apply Z.leb_le|].
+      apply orb_true_iff. destruct G2 as [G2|[G2 G3]]; [left; now apply Z.eqb_eq|right].
+      apply andb_true_iff. split; [now apply Z.eqb_eq|]. apply negb_true_iff. now apply Z.eqb_neq.
+Qed.
+
+(* ---------- the exact-rational model is evenly spaced ---------- *)
+Lemma exact_gap (d b a : Z) : 0 < b -> b <= d -> 0 <= a ->
+  1 <= (a + d) / b - a / b /\
+  ((a + d) / b - a / b = d / b \/ ((a + d) / b - a / b = d / b + 1 /\ d mod b <> 0)).
+Proof.
+  intros Hb Hd Ha.
+  pose proof (Z.div_mod a b ltac:(lia)) as Ea. pose proof (Z.div_mod d b ltac:(lia)) as Ed.
+  pose proof (Z.mod_pos_bound a b Hb) as Ba. pose proof (Z.mod_pos_bound d b Hb) as Bd.
+  assert (Qd : 1 <= d / b) by (apply Z.div_le_lower_bound; lia).
+  assert (E : (a + d) / b = a / b + d / b + (a mod b + d mod b) / b).
+  { replace (a + d) with ((a / b + d / b) * b + (a mod b + d mod b)) by lia.
+    rewrite Z.div_add_l by lia. reflexivity. }
+  assert (C : (a mod b + d mod b) / b = 0 \/ (a mod b + d mod b) / b = 1).
+  { destruct (Z.lt_ge_cases (a mod b + d mod b) b) as [L|L].
+    - left. apply Z.div_small. lia.
+    - right. symmetry. apply (Z.div_unique _ b 1 (a mod b + d mod b - b)); lia. }
+  rewrite E. split; [lia|]. destruct C as [C|C]; rewrite C; [left; lia|right]. split; [lia|].
+  intros Z0. rewrite Z0 in *. rewrite Z.add_0_r in C. rewrite Z.div_small in C by lia. lia.
+Qed.
+
+Theorem exact_z_evenly_spaced n N : 1 <= N <= n -> evenly_spaced n N (exact_z n N).
+Proof.
+  intros H. unfold evenly_spaced, exact_z. rewrite map_length, ziota_length. split; [lia|].
+  assert (Nth : forall k, (k < Z.to_nat N)%nat ->
+     nth k (map (fun k0 => k0 * (n - 1) / (N - 1)) (ziota (Z.to_nat N) 0)) 0 = Z.of_nat k * (n - 1) / (N - 1)).
+  { intros k Hk. rewrite (nth_map_lt _ _ 0) by now rewrite ziota_length. rewrite ziota_nth by exact Hk. f_equal. }
+  split; [|split].
+  - destruct (Z.to_nat N) as [|m] eqn:E; [lia|]. cbn. reflexivity.
+  - intros H2.
+    assert (L : forall (l : list Z), l <> [] -> last l 0 = nth (length l - 1) l 0).
+    { induction l as [|x r IH]; [congruence|intros _]. destruct r as [|y r']; [reflexivity|].
+      change (last (x :: y :: r') 0) with (last (y :: r') 0). rewrite IH by discriminate.
+      cbn [length]. replace (S (S (length r')) - 1)%nat with (S (S (length r') - 1)) by lia. reflexivity. }
+    rewrite L by (destruct (Z.to_nat N) eqn:E; [lia|cbn; discriminate]).
+    rewrite map_length, ziota_length. rewrite Nth by lia.
+    replace (Z.of_nat (Z.to_nat N - 1)) with (N - 1) by lia. rewrite Z.mul_comm. apply Z.div_mul. lia.
+  - intros k Hk. rewrite !Nth by lia.
+    destruct (Z.eq_dec N 1) as [->|N1]; [cbn in Hk; lia|].
+    replace (Z.of_nat (S k) * (n - 1)) with (Z.of_nat k * (n - 1) + (n - 1)) by lia.
+    apply exact_gap; try lia. apply Z.mul_nonneg_nonneg; lia.
+Qed.
+
+(* ---------- over the reals the sampling model IS the exact-rational model ---------- *)
+Lemma floor_near_exact (g : Z) (r : R) : (IZR g <= r < IZR (g + 1))%R -> @floor_near R R_ops g r = g.
+Proof.
+  intros [H1 H2]. unfold floor_near. cbn [adj_down]. rnum.
+  destruct (Rltb r (IZR g)) eqn:A; [apply Rltb_true in A; lra|]. cbn [adj_up]. rnum.
+  destruct (Rleb (IZR (g + 1)) r) eqn:B; [apply Rleb_true in B; lra|]. reflexivity.
+Qed.
+
+Lemma div_bounds_R (k d b : Z) : 0 < b ->
+  (IZR (k * d / b) <= IZR k * (IZR d / IZR b) < IZR (k * d / b + 1))%R.
+Proof.
+  intros Hb. set (g := k * d / b).
+  assert (H1 : b * g <= k * d) by (apply Z.mul_div_le; lia).
+  assert (H2 : k * d < b * (g + 1)).
+  { pose proof (Z.mul_succ_div_gt (k * d) b Hb) as Q. unfold Z.succ in Q. exact Q. }
+  apply IZR_le in H1. apply IZR_lt in H2. rewrite !mult_IZR in *.
+  assert (Bp : (0 < IZR b)%R) by (apply IZR_lt; exact Hb).
+  replace (IZR k * (IZR d / IZR b))%R with ((IZR k * IZR d) / IZR b)%R by (field; lra).
+  split.
+  - apply Rmult_le_reg_l with (IZR b); [exact Bp|]. replace (IZR b * (IZR k * IZR d / IZR b))%R with (IZR k * IZR d)%R by (field; lra). exact H1.
+  - apply Rmult_lt_reg_l with (IZR b); [exact Bp|]. replace (IZR b * (IZR k * IZR d / IZR b))%R with (IZR k * IZR d)%R by (field; lra). exact H2.
+Qed.
+
+Theorem linspace_real_is_exact n N : 1 <= N -> @linspace_z R R_ops n N = exact_z n N.
+Proof.
+  intros H. unfold linspace_z, exact_z. destruct (Z.eqb_spec N 1) as [->|N1]; [reflexivity|].
+  apply map_ext_in. intros k Hk. apply ziota_In in Hk.
+  destruct (Z.eqb_spec k (N - 1)) as [E|Ne].
+  - rewrite E. symmetry. rewrite Z.mul_comm. apply Z.div_mul. lia.
+  - rnum. apply floor_near_exact. apply div_bounds_R. lia.
+Qed.
+
+(* ---------- numpy's binary64 linspace, bounded enumeration ---------- *)
+
+Lemma forallb_ziota (p : Z -> bool) len : forall s, forallb p (ziota len s) = true ->
+  forall x, s <= x < s + Z.of_nat len -> p x = true.
+Proof.
+  induction len as [|l IH]; intros s H x Hx; [lia|]. cbn [ziota forallb] in H. apply andb_prop in H.
+  destruct H as [H1 H2]. destruct (Z.eq_dec x s) as [->|Ne]; [exact H1|]. apply (IH (s + 1) H2). lia.
+Qed.
+
+Theorem linspace_float_evenly_spaced n N : 1 <= N < n -> n <= 300 -> evenly_spaced n N (linspace_zf n N).
+Proof.
+  intros H Hn. apply evenly_spaced_zb_iff.
+  pose proof (forallb_ziota linspace_row_ok 301 0 linspace_even_300 n ltac:(lia)) as E1.
+  unfold linspace_row_ok in E1.
+  exact (forallb_ziota (fun N0 => evenly_spaced_zb n N0 (linspace_zf n N0)) _ 1 E1 N ltac:(lia)).
+Qed.
+
+(* ---------- PosePath3D.downsample ---------- *)
+Lemma ziota_to_nat len : forall s, map Z.to_nat (ziota len (Z.of_nat s)) = seq s len.
+Proof.
+  induction len as [|l IH]; intros s; [reflexivity|]. cbn [ziota map seq]. rewrite Nat2Z.id. f_equal.
+  replace (Z.of_nat s + 1) with (Z.of_nat (S s)) by lia. apply IH.
+Qed.
+
+Theorem downsample_spec (n N : nat) :
+  match @downsample_ids R R_ops n N with
+  | None => (N < 1 /\ N < n)%nat
+  | Some ids =>
+      length ids = Nat.min N n /\
+      if Nat.leb n N then ids = seq 0 n
+      else ids = map Z.to_nat (exact_z (Z.of_nat n) (Z.of_nat N)) /\
+           evenly_spaced (Z.of_nat n) (Z.of_nat N) (exact_z (Z.of_nat n) (Z.of_nat N))
+  end.
+Proof.
+  unfold downsample_ids, downsample_z. destruct (Nat.leb_spec n N) as [L|L].
+  - destruct (Z.leb_spec (Z.of_nat n) (Z.of_nat N)) as [L'|L']; [|lia]. cbn [option_map].
+    rewrite Nat2Z.id. change 0 with (Z.of_nat 0). rewrite (ziota_to_nat n 0). split; [rewrite seq_length; lia|reflexivity].
+  - destruct (Z.leb_spec (Z.of_nat n) (Z.of_nat N)) as [L'|L']; [lia|].
+    destruct (Z.ltb_spec (Z.of_nat N) 1) as [L1|L1]; [cbn; lia|]. cbn [option_map].
+    rewrite linspace_real_is_exact by lia. split; [|split; [reflexivity|apply exact_z_evenly_spaced; lia]].
+    rewrite map_length. unfold exact_z. rewrite map_length, ziota_length. lia.
+Qed.
+
+(* the same, for the binary64 reading of the model, within the enumerated bound *)
+Theorem downsample_float_spec (n N : nat) : (1 <= N < n)%nat -> (n <= 300)%nat ->
+  @downsample_ids PrimFloat.float F_ops n N = Some (map Z.to_nat (linspace_zf (Z.of_nat n) (Z.of_nat N))) /\
+  evenly_spaced (Z.of_nat n) (Z.of_nat N) (linspace_zf (Z.of_nat n) (Z.of_nat N)).
+Proof.
+  intros H Hn. split; [|apply linspace_float_evenly_spaced; lia].
+  unfold downsample_ids, downsample_z. destruct (Z.leb_spec (Z.of_nat n) (Z.of_nat N)) as [L|L]; [lia|].
+  destruct (Z.ltb_spec (Z.of_nat N) 1) as [L1|L1]; [lia|]. reflexivity.
+Qed.
+
+(* evenly spaced lists are strictly increasing and stay within 0 .. n-1 *)
+Lemma evenly_spaced_increasing n N ids : evenly_spaced n N ids ->
+  forall a b, (a < b < length ids)%nat -> nth a ids 0 < nth b ids 0.
+Proof.
+  intros (_ & _ & _ & G) a b H. induction b as [|b IH]; [lia|].
+  destruct (Nat.eq_dec a b) as [->|Ne].
+  - destruct (G b ltac:(lia)) as [G1 _]. lia.
+  - specialize (IH ltac:(lia)). destruct (G b ltac:(lia)) as [G1 _]. lia.
+Qed.
+Local Close Scope Z_scope.
+
+(* ====================================================================================== *)
+(* the characterisation of the motion filter determines the kept poses                    *)
+(* ====================================================================================== *)
+Lemma sorted_ext (K K' : list nat) : StronglySorted lt K -> StronglySorted lt K' ->
+  (forall j, In j K <-> In j K') -> K = K'.
+Proof.
+  intros S. revert K'. induction S as [|a r S IH F]; intros K' S' H.
+  - destruct K' as [|b t]; [reflexivity|]. exfalso. apply (H b). now left.
+  - destruct S' as [|b t S' F'].
+    + exfalso. apply (H a). now left.
+    + rewrite Forall_forall in F, F'.
+      assert (a = b).
+      { destruct (proj1 (H a) (or_introl eq_refl)) as [E|I]; [now symmetry|].
+        destruct (proj2 (H b) (or_introl eq_refl)) as [E|I']; [exact E|].
+        specialize (F _ I'). specialize (F' _ I). lia. }
+      subst b. f_equal. apply IH; [exact S'|]. intros j. split; intros I.
+      * destruct (proj1 (H j) (or_intror I)) as [E|I']; [|exact I']. subst j. specialize (F _ I). lia.
+      * destruct (proj2 (H j) (or_intror I)) as [E|I']; [|exact I']. subst j. specialize (F' _ I). lia.
+Qed.
+
+Lemma filter_sorted (f : nat -> bool) (K : list nat) : StronglySorted lt K -> StronglySorted lt (filter f K).
+Proof.
+  induction 1 as [|a r S IH F]; cbn; [constructor|]. destruct (f a); [|exact IH].
+  constructor; [exact IH|]. rewrite Forall_forall in *. intros x Hx. apply filter_In in Hx. apply F. tauto.
+Qed.
+
+Theorem motion_characterisation_unique (dthr a : R) (ang : nat -> nat -> R) (D : list R) (n : nat) (K K' : list nat) :
+  (forall L, L = K \/ L = K' ->
+     StronglySorted lt L /\ Forall (fun j => (j < n)%nat) L /\ In 0%nat L /\
+     forall j, (1 <= j < n)%nat -> (In j L <-> keep dthr a ang D (last_kept L 0 j) j)) ->
+  K = K'.
+Proof.
+  intros H. destruct (H K (or_introl eq_refl)) as (Sk & F & Z & C).
+  destruct (H K' (or_intror eq_refl)) as (Sk' & F' & Z' & C'). clear H.
+  apply sorted_ext; [exact Sk|exact Sk'|].
+  assert (G : forall m j, (j < m)%nat -> (In j K <-> In j K')).
+  { induction m as [|m IHm]; intros j Hj; [lia|].
+    destruct (Nat.eq_dec j m) as [->|Ne]; [|apply IHm; lia].
+    destruct (Nat.eq_dec m 0) as [->|M0]; [tauto|].
+    destruct (Nat.lt_ge_cases m n) as [Ln|Ln].
+    - rewrite (C m ltac:(lia)), (C' m ltac:(lia)).
+      assert (E : filter (fun k => Nat.ltb k m) K = filter (fun k => Nat.ltb k m) K').
+      { apply sorted_ext; [apply filter_sorted; exact Sk|apply filter_sorted; exact Sk'|].
+        intros k. rewrite !filter_In. split; intros [I Lk]; (split; [|exact Lk]); apply Nat.ltb_lt in Lk;
+          apply (IHm k Lk); exact I. }
+      unfold last_kept. rewrite E. reflexivity.
+    - rewrite Forall_forall in F, F'. split; intros I; [specialize (F _ I)|specialize (F' _ I)]; lia. }
+  intros j. apply (G (S j)). lia.
+Qed.
+
+Lemma reduce_picks_by_index {A} (d : A) l ids k : (k < length ids)%nat ->
+  length (select_ids d l ids) = length ids /\ nth k (select_ids d l ids) d = nth (nth k ids 0%nat) l d.
+Proof. intros H. split; [apply select_ids_length|apply select_ids_nth; exact H]. Qed.
+
+(* the binary64 reading really differs from the exact floor (index 11 of 23 samples out of 31 poses):
+   numpy keeps pose 14 where the exact rule keeps pose 15 - both lists are evenly spaced *)
+Lemma linspace_float_differs_from_exact :
+  linspace_zf 31 23 = [0; 1; 2; 4; 5; 6; 8; 9; 10; 12; 13; 14; 16; 17; 19; 20; 21; 23; 24; 25; 27; 28; 30]%Z /\
+  exact_z 31 23 = [0; 1; 2; 4; 5; 6; 8; 9; 10; 12; 13; 15; 16; 17; 19; 20; 21; 23; 24; 25; 27; 28; 30]%Z.
+Proof. split; vm_compute; reflexivity. Qed.
